@@ -228,3 +228,50 @@ def run_ref_rule_case(ki, vi, ni, ti):
         return ok == (registry.class_for_type(name, ver, kind) is not None)
     finally:
         restore(saved)
+
+
+# ---------------------------------------------------------------- registered custom markings: definition_type decides the class of the definition
+def marking_definition_forms(v21: bool, ti: int, fi: int) -> bool:
+    """
+    pre: 0 <= ti < 3 and 0 <= fi < 7
+    post: _
+    """
+    v21, ti, fi = bool(v21) and True or False, pick(ti, 3), pick(fi, 7)
+    with Native():
+        ok = run_marking_form_case(v21, ti, fi)
+    V.reached()
+    return ok
+
+
+def run_marking_form_case(v21, ti, fi):
+    """a marking-definition's definition is built from a dictionary, an instance of the right class, an instance of ANOTHER registered marking
+    class, a built-in marking instance, JSON text or junk: either refused, or the definition is an instance of the class registered for
+    definition_type, the object round trips and parses to the same class"""
+    mod = stix2.v21 if v21 else stix2.v20
+    ver = "2.1" if v21 else "2.0"
+    saved = snapshot()
+    try:
+        @mod.CustomMarking("x-mark-a", [("prop_one", P.StringProperty(required=True))])
+        class MarkA(object):
+            pass
+
+        @mod.CustomMarking("x-mark-b", [("prop_one", P.StringProperty(required=True)), ("other", P.IntegerProperty())])
+        class MarkB(object):
+            pass
+        dtype = ["x-mark-a", "x-mark-b", "statement"][ti]
+        want_cls = [MarkA, MarkB, mod.StatementMarking][ti]
+        forms = [{"prop_one": "v"}, MarkA(prop_one="v"), MarkB(prop_one="v", other=1), mod.StatementMarking(statement="s"), mod.TLPMarking(tlp="red"),
+                 json.dumps({"prop_one": "v"}), 5]
+        if ti == 2 and fi == 0:
+            forms[0] = {"statement": "s"}
+        try:
+            md = mod.MarkingDefinition(definition_type=dtype, definition=forms[fi])
+        except (STIXError, ValueError, TypeError, KeyError):
+            return fi not in ((0, 1) if ti == 0 else (0, 2) if ti == 1 else (0, 3))     # the dictionary and the right-class instance must be accepted
+        if not isinstance(md.definition, want_cls):
+            return False
+        text = md.serialize()
+        back = stix2.parse(text, version=ver)
+        return type(back) is type(md) and isinstance(back.definition, want_cls) and back.serialize() == text
+    finally:
+        restore(saved)
